@@ -512,7 +512,7 @@ func (b *BlockList) persist(s blockSnapshot) {
 	}
 
 	path := filepath.Join(b.cfg.BlockListDir, "local")
-	tmp, err := os.CreateTemp(b.cfg.BlockListDir, "local.tmp.*")
+	tmp, err := os.CreateTemp(b.cfg.BlockListDir, persistTempPrefix+"*")
 	if err != nil {
 		zlog.Warn("Blocklist persist failed: create temp", "dir", b.cfg.BlockListDir, "error", err.Error())
 		return
@@ -562,3 +562,9 @@ func (b *BlockList) persist(s blockSnapshot) {
 }
 
 const name = "blocklist"
+
+// persistTempPrefix names the temporary files persist writes next to the
+// local list before renaming them over it. One that is still there was left
+// by an interrupted persist — possibly cut off mid-line — and is not a
+// blocklist: the loader removes it instead of reading it.
+const persistTempPrefix = "local.tmp."
